@@ -6,7 +6,7 @@ from fibertree.model.format import Format
 BOUNDS = {
     "quick": "tensors of skeleton 2, [1,1], [2,1], [1,0], [[1]] inside concrete shapes (3 per rank), coordinates/values symbolic; per-rank format in {C,U}^d "
              "enumerated; rhbits/fhbits/cbits/pbits per rank and root hbits/pbits symbolic >= 0 (unbounded); missing-field patterns (none, all, bits only); "
-             "getFiber at root and at a symbolic stored prefix, getRank, getRoot, getTensor, getSubTree at () / prefix / full point; purity of queries",
+             "getFiber at root and at a symbolic stored prefix, getRank, getRoot, getTensor, getSubTree at () / prefix / full point; purity of queries; per-rank accessors (bits, format, layout, getElem), the same Format object queried again after the tensor changed",
     "thorough": "adds [2,2], [0,1], [[1,1]], [[1],[1]] and symbolic shape with concrete widths",
 }
 OUTSIDE = "'interleaved' layout (accepted, has no effect on footprints in this code); non-integer widths"
